@@ -99,6 +99,8 @@ SWARM = [
     {"follow_perpendicular_rtol": 1.0e-6}, {"finecontour_overdamping_factor": 0.6},
     {"geometry_rtol": 1.0e-8}, {"sfunc_checktol": 1.0e-10}, {"refine_timeout": 30.0},
     {"poloidal_spacing_delta_psi": 0.005}, {"finecontour_extend_prefactor": 3.0},
+    # perpendicular lines that run out of iterations and are "recovered"
+    {"follow_perpendicular_recover": True, "follow_perpendicular_maxits": 40},
 ]
 
 
